@@ -496,3 +496,50 @@ def check_client_histories(rr, strict_requests: bool = False) -> list:
             elif k == 'cancel' and own and state.get(t) == 'submitted':
                 state[t] = 'cancelled'
     return _dedup(out)
+
+
+# ------------------------------------------------------------- reach probes
+def reach_probes(rr, info: dict) -> None:
+    """Evidence only: how often the conditions the property quantifies
+    over were actually reached in this run."""
+    def add(k, n=1):
+        if n:
+            info[k] = info.get(k, 0) + n
+    starts = {}
+    for r in rr.rec:
+        if r[1] == 'start' and r[3][1] is not None:
+            wid, addr = r[3]
+            addr = tuple(addr)
+            starts[addr] = wid
+            add('reach.tasks_started')
+            if addr[0] >= 0 and addr[0] != wid:
+                add('reach.task_ran_on_other_worker_than_its_creator')
+        elif r[1] == 'batch':
+            add('reach.next_batches')
+            if len(r[5]) > 1:
+                add('reach.next_batches_with_several_results')
+            if len(r[5]) == 0:
+                add('reach.next_batches_empty')
+        elif r[1] == 'obs':
+            add('reach.awaits_returned')
+    # results that reached the awaiting worker before / after the task
+    # asked for them cannot be told apart from outside; what can be seen
+    # on the wire: a WAITING that crossed a SUBMIT/SUBMIT_BATCH in flight
+    inflight_to = {}
+    for seq, ev, src, dst, desc in wire(rr):
+        if desc[0] in ('SUBMIT', 'SUBMIT_BATCH') and dst.startswith('w'):
+            if ev == 'SEND':
+                inflight_to[dst] = inflight_to.get(dst, 0) + 1
+            elif ev == 'RECV':
+                inflight_to[dst] = inflight_to.get(dst, 0) - 1
+        elif ev == 'SEND' and desc[0] == 'WAITING' and src.startswith('w'):
+            if inflight_to.get(src, 0) > 0:
+                add('reach.waiting_crossed_submit_in_flight')
+        elif ev == 'SEND' and desc[0] == 'SUBMIT_BATCH' \
+                and isinstance(desc[1], tuple) and len(desc[1]) > 1:
+            add('reach.multi_task_batches')
+    depth = 0
+    for a in starts:
+        depth = max(depth, len(ancestors_or_self(rr, a)))
+    info['reach.max_tree_depth_sum'] = info.get('reach.max_tree_depth_sum',
+                                                0) + depth
